@@ -429,6 +429,11 @@ def module_state(ctx):
             key = "%s::%s::%s" % (owner[0], owner[1], f.qual)
             where = "%s:%d" % (f.module.rel, n.lineno)
             if val is None:
+                # `cache.setdefault(key, {})` creates a level of a keyed memo exactly like `cache[key] = {}` does
+                if n.func.attr == "setdefault" and len(n.args) == 2 and (isinstance(n.args[1], (ast.Dict, ast.List, ast.Set)) and not
+                                                                          (getattr(n.args[1], "keys", None) or getattr(n.args[1], "elts", None))):
+                    r.ok("R12.2", key + "::level", where, detail={"cache": owner[1], "level_created_with": "setdefault"})
+                    continue
                 r.bad("R12.2", key, where, "module-level container %s is mutated by %s" % (owner[1], norm(n)[:60]))
                 continue
             knames = {x.id for k in keys for x in ast.walk(k) if isinstance(x, ast.Name)}
